@@ -37,6 +37,12 @@ Fn(fn, args) ==
             MathCall(fn, s)
        [] fn \in {"LEN", "UPPER", "LOWER", "TRIM", "LEFT", "RIGHT", "MID", "FIND", "SEARCH",
                   "REPLACE", "SUBSTITUTE", "VALUE"} -> TextCall(fn, s)
+       [] fn \in {"MAXA", "MINA", "AVERAGEA"} -> AggA(fn, args)
+       [] fn \in {"GCD", "LCM"} -> GcdLcm(fn, args)
+       [] fn \in {"T", "CODE", "CHAR", "FACT"} -> Extra1(fn, s[1])
+       [] fn = "MROUND" -> (LET x == Coerce(s[1])  y == Coerce(s[2])
+                            IN IF s[1].k = "e" THEN s[1] ELSE IF s[2].k = "e" THEN s[2]
+                               ELSE IF x.k = "e" THEN x ELSE IF y.k = "e" THEN y ELSE MRound(x, y))
        [] fn = "CONCAT" -> Concat(args)
        [] fn = "CONCATENATE" -> Concat(args)      \* (scalars only in the cases below)
        [] fn = "TEXTJOIN" -> TextJoin(s[1], s[2], SubSeq(args, 3, n))
@@ -263,7 +269,23 @@ LiftCases ==
   \cup {Case(fn, <<a, alt>>) : fn \in {"IFERROR", "IFNA"}, a \in {LSq, Lit(<<<<D0, NAe>>>>)},
                                alt \in {D(IntV(0)), LRow}}
 
-Cases == CASE Family = "lift" -> LiftCases
+\* -- beyond C12's list (replayed for information only)
+GArgs == {D(IntV(12)), D(IntV(18)), D(Num(15, 2)), D(IntV(0)), D(IntV(-4)), D(t4), D(tX), D(T), D(NAe),
+          Ref(<<<<IntV(8), IntV(20)>>>>), Ref(<<<<tX, Blank, IntV(6)>>>>), Cell1(Blank)}
+ExtraCases ==
+  {Case(fn, a) : fn \in {"MAXA", "MINA", "AVERAGEA"}, a \in Seqs1(AggArgs) \cup Seqs2(AggArgsSmall)}
+  \cup {Case(fn, a) : fn \in {"GCD", "LCM"},
+            a \in Seqs1(GArgs) \cup Seqs2(GArgs)}
+  \cup {Case(fn, <<a>>) : fn \in {"T", "CODE"}, a \in TextVals}
+  \cup {Case(fn, <<D(x)>>) : fn \in {"CHAR", "FACT"},
+            x \in {IntV(0), IntV(1), IntV(5), IntV(12), IntV(65), Num(131, 2), IntV(170), IntV(255), IntV(256),
+                   IntV(-1), tX, S(<<54, 54>>), T, NAe}}
+  \cup {Case("MROUND", <<D(x), D(y)>>) : x \in {IntV(10), IntV(-10), Num(5, 2), Num(13, 10), IntV(0), IntV(7)},
+                                         y \in {IntV(3), IntV(-3), Num(1, 2), IntV(0), Num(1, 5), IntV(2)}}
+
+
+Cases == CASE Family = "extra" -> ExtraCases
+           [] Family = "lift" -> LiftCases
            [] Family = "agg" -> AggCases \cup KthCases \cup SpCases
            [] Family = "logic" -> LogicCases \cup InfoCases
            [] Family = "math" -> Math1Cases \cup RoundCases \cup ModCases \cup CfCases \cup PowCases \cup LogCases
